@@ -389,9 +389,9 @@ def main():
                             summary['errors']['ExceptionGrowingPolicy.Check'] = str(e)
             if not got and 'ExceptionGrowingPolicy.Check' not in summary['errors']:
                 summary['errors']['ExceptionGrowingPolicy.Check'] = 'not found in the AST'
-            text = ('(* GENERATED by translator/amc2coq.py from clang\'s AST of the headers under %s (-std=%s). Do not edit. *)\n'
+            text = ('(* GENERATED by translator/amc2coq.py from clang\'s AST of the amc headers (-std=%s). Do not edit. *)\n'
                     'From Coq Require Import ZArith Bool.\nFrom Amc Require Import GenPrelude.\nLocal Open Scope Z_scope.\n\n%s\n'
-                    % (include, std, '\n\n'.join(defs)))
+                    % (std, '\n\n'.join(defs)))
             path = os.path.join(outdir, 'L0_%s.v' % tag)
             old = open(path).read() if os.path.exists(path) else None
             if old != text:
